@@ -17,6 +17,7 @@ mod indep_mvt;
 mod mem;
 mod pipeline;
 mod server;
+mod tj;
 mod util;
 mod vt;
 
@@ -65,6 +66,7 @@ fn main() {
 			serde_json::json!({})
 		}
 		("replay", "C20") => c20::replay(&args[3], &args[4]),
+		("replay", "TILEJSON") => tj::replay(&args[3], &args[4]),
 		("record", "C20") => c20::record(&args[3], seed, thorough),
 		_ => {
 			eprintln!("unknown command {:?}", &args[1..]);
